@@ -165,7 +165,20 @@ func c16RefStream(c *fw.Ctx) ([]ev.Event, string) {
 	abegin := ev.Event{K: ev.ABEGIN, AT: 1}
 	chunk := func(n uint64, more bool) ev.Event { return ev.Event{K: ev.CHUNK, U: n, Flag: more} }
 	data := func(b ...byte) ev.Event { return ev.Event{K: ev.DATA, B: b} }
-	switch c.Rng.Intn(10) {
+	ckey := func(k string) []ev.Event { return []ev.Event{abegin, chunk(uint64(len(k)), false), data([]byte(k)...)} }
+	cmap := func(k1, k2 string) []ev.Event {
+		body := append([]ev.Event{{K: ev.MAP}}, ckey(k1)...)
+		body = append(append(body, ev.Event{K: ev.PINT, U: 1}), ckey(k2)...)
+		return wrap(append(body, ev.Event{K: ev.PINT, U: 2}, ev.Event{K: ev.END})...)
+	}
+	switch c.Rng.Intn(13) {
+	case 10: // given up with the first bytes of a chunked string collected
+		return []ev.Event{{K: ev.BD}, {K: ev.VER}, abegin, chunk(5, false), data('a', 'b')}, "unfinished-chunked-string"
+	case 11: // chunk-delivered map keys: the same key twice
+		k := []string{"c", "abc", "k"}[c.Rng.Intn(3)]
+		return cmap(k, k), "duplicate-chunked-key"
+	case 12: // chunk-delivered map keys that differ by exactly what an earlier document may have left behind
+		return cmap("c", "abc"), "chunked-keys"
 	case 6: // the validator is left holding the first bytes of a character
 		return wrap(abegin, chunk(2, true), data(0xe2, 0x82), chunk(1, false), data(0xac)), "invalid-utf8-chunk-ends-mid-character"
 	case 7:
